@@ -14,6 +14,7 @@ import (
 	"fmt"
 	"sync"
 
+	kbls "github.com/kilic/bls12-381"
 	blsu "github.com/protolambda/bls12-381-util"
 	"github.com/protolambda/zrnt/eth2/beacon"
 	"github.com/protolambda/zrnt/eth2/beacon/common"
@@ -319,7 +320,36 @@ const (
 	sigZero        sigKind = "zero"        // 96 zero bytes
 )
 
-var sigKinds = []sigKind{sigOK, sigWrongKey, sigWrongDomain, sigWrongFork, sigWrongMsg, sigTrunc, sigGarbage, sigInfinity, sigZero}
+// compplus / compminus: the honest signature plus / minus a fixed other G2 point X (a valid signature by another key
+// over another message). Each is individually invalid; a pair (s1 + X, s2 - X) has the same SUM as (s1, s2).
+const (
+	sigCompPlus  sigKind = "compplus"
+	sigCompMinus sigKind = "compminus"
+)
+
+var sigKinds = []sigKind{sigOK, sigWrongKey, sigWrongDomain, sigWrongFork, sigWrongMsg, sigTrunc, sigGarbage, sigInfinity, sigZero,
+	sigCompPlus, sigCompMinus}
+
+// shiftSig returns sig + X (minus = false) or sig - X (minus = true) for the fixed point X.
+func (c *netCtx) shiftSig(sig common.BLSSignature, minus bool) common.BLSSignature {
+	x := c.rawSign(len(c.secret)-1, []byte("c12 compensating point"))
+	sp, err := sig.Signature()
+	if err != nil {
+		panic(err)
+	}
+	xp, err := x.Signature()
+	if err != nil {
+		panic(err)
+	}
+	g2 := kbls.NewG2()
+	var out kbls.PointG2
+	if minus {
+		g2.Sub(&out, (*kbls.PointG2)(sp), (*kbls.PointG2)(xp))
+	} else {
+		g2.Add(&out, (*kbls.PointG2)(sp), (*kbls.PointG2)(xp))
+	}
+	return common.BLSSignature((*blsu.Signature)(&out).Serialize())
+}
 
 func validSigKind(k string) bool {
 	for _, s := range sigKinds {
@@ -390,6 +420,9 @@ func (c *netCtx) sign(kind sigKind, signer int, domType [4]byte, stateEpoch, msg
 		return s
 	case sigZero:
 		return common.BLSSignature{}
+	case sigCompPlus, sigCompMinus:
+		r := oracleSigningRoot(objRoot, dom)
+		return c.shiftSig(c.rawSign(signer, r[:]), kind == sigCompMinus)
 	}
 	panic("bad sig kind")
 }
